@@ -114,6 +114,14 @@ func vfAlterRequestAny(a *anypb.Any) *anypb.Any {
 	return out
 }
 
+// vfSmuggleIntoRequestAny: the same message with a field the message type does not define appended to its bytes
+// (field 1000, length-delimited): known fields, count and order are untouched, the bytes are not.
+func vfSmuggleIntoRequestAny(a *anypb.Any) *anypb.Any {
+	out := proto.Clone(a).(*anypb.Any)
+	out.Value = append(append([]byte{}, out.Value...), 0xc2, 0x3e, 0x08, 's', 'm', 'u', 'g', 'g', 'l', 'e', 'd')
+	return out
+}
+
 var vfReqInfoName = (&conformancev1.ConformancePayload_RequestInfo{}).ProtoReflect().Descriptor().FullName()
 
 // vfDeviations lists every applicable single deviation of the expected result,
@@ -206,6 +214,10 @@ func vfDeviations(def *conformancev1.TestCase) []vfDeviation {
 								ri.Requests[j] = alt
 							})})
 						}
+						smuggled := vfSmuggleIntoRequestAny(eri.Requests[j])
+						add(vfDeviation{class: "detail-echo-extra-bytes", field: "error-details", pos: i*100 + j, want: fmt.Sprintf("request #%d: did not survive round-trip", j+1), apply: mut(func(ri *conformancev1.ConformancePayload_RequestInfo) {
+							ri.Requests[j] = smuggled
+						})})
 					}
 				}
 			}
@@ -311,6 +323,10 @@ func vfDeviations(def *conformancev1.TestCase) []vfDeviation {
 					a.Payloads[i].RequestInfo.Requests[j] = alt
 				}})
 			}
+			smuggled := vfSmuggleIntoRequestAny(p.RequestInfo.Requests[j])
+			add(vfDeviation{class: "echo-extra-bytes", field: "payloads", pos: i*100 + j, want: fmt.Sprintf("request #%d: did not survive round-trip", j+1), apply: func(a *conformancev1.ClientResponseResult) {
+				a.Payloads[i].RequestInfo.Requests[j] = smuggled
+			}})
 		}
 	}
 	// ---- header-like lists
